@@ -101,7 +101,7 @@ def _validate_trace(ctx, trace_path, label):
     return res
 
 
-MAX_PER_CLASS = 3   # replay files written per violation class (all are counted)
+MAX_PER_CLASS = 2   # replay files written per violation class (all are counted)
 
 
 def _limited(ctx, cls):
@@ -116,7 +116,7 @@ def _report_trace_bad(ctx, res, events):
     for b in res["bad"]:
         ev = byid[b["id"]]
         cls = _trace_class(b["expOutcome"], b["expCalls"], ev)
-        if not _limited(ctx, cls):
+        if not _limited(ctx, "trace:" + cls):
             continue
         ctx.violation({"kind": "cmd-trace", "event": ev},
                       "command %r (handler %sregistered): the property prescribes outcome %s with handler calls %s; "
@@ -133,7 +133,7 @@ def _replay_rows(ctx, rows, batch=200):
     stats = json.loads(p.stdout.strip().splitlines()[-1])
     diffs = vlib.read_ndjson(ctx.path("diffs.ndjson"))
     for d in diffs:
-        if not _limited(ctx, d["what"]):
+        if not _limited(ctx, "replay:" + d["what"]):
             continue
         ctx.violation({"kind": "cmd-replay", "case": d["case"], "text": d["text"]},
                       "command %r: the specification prescribes outcome %s with handler calls %s; the library gave "
